@@ -207,3 +207,35 @@ fn c12_sine_table_slopes() {
     vassert!(lookup_tables::SINE_LUT_SIZE == 1024, "C12/sine-table/size-1024");
     vcover!(i == 1023, "witness: wrap cell");
 }
+
+// =====================================================================
+// C17  LFO public operations: no panic
+// =====================================================================
+
+// @harness prop=C17,C11 tier=quick timeout=1500
+// @about public API only (set_phase excepted: its float `%` is decided by the MIR->SMT engine, which shows the counter stays < 2^24): Lfo::new(fs) for any f32 fs in [100, 192000], set_frequency(f) for any f32 f in [0, fs], up to three ticks, reset, all five get() calls: no panic, no overflow, no out-of-bounds table index; the counter stays below 2^24 and every output in [-1,1]
+#[kani::proof]
+fn c17_lfo_public_ops_no_panic() {
+    let fs: f32 = kani::any();
+    kani::assume(fs >= 100.0 && fs <= 192_000.0);
+    let f: f32 = kani::any();
+    kani::assume(f >= 0.0 && f <= fs);
+    let mut l = Lfo::new(fs);
+    l.set_frequency(f);
+    vassert!(l.phase_accumulator.verif_inc() <= N24 + 2, "C17/lfo/increment-at-most-one-cycle");
+    l.tick();
+    l.tick();
+    let flags: u8 = kani::any();
+    if flags & 1 != 0 { l.reset(); }
+    l.tick();
+    vassert!(l.phase_accumulator.verif_acc() <= MASK, "C17/lfo/counter-below-2^24");
+    let s = l.get(Waveshape::Sine);
+    let t = l.get(Waveshape::Triangle);
+    let u = l.get(Waveshape::UpSaw);
+    let d = l.get(Waveshape::DownSaw);
+    let q = l.get(Waveshape::Square);
+    vassert!(s >= -1.0 && s <= 1.0 && t >= -1.0 && t <= 1.0 && u >= -1.0 && u <= 1.0 && d >= -1.0 && d <= 1.0
+        && (q == 1.0 || q == -1.0), "C17/lfo/outputs-in-[-1,1]");
+    vcover!(f == fs, "witness: f == fs");
+    vcover!(f > 0.0 && f < 1.0e-30, "witness: tiny frequency");
+}
